@@ -433,6 +433,24 @@ func (f *Footer) Length() uint64 {
 
 // --------------------------------------------------------
 
+// anyMmapRef returns the mmapRef of some persisted segment of the
+// footer or of its child footers (they all share one file), or nil
+// when nothing is persisted.  The caller must hold a ref-count on the
+// footer.
+func (f *Footer) anyMmapRef() *mmapRef {
+	for i := range f.SegmentLocs {
+		if f.SegmentLocs[i].mref != nil {
+			return f.SegmentLocs[i].mref
+		}
+	}
+	for _, childFooter := range f.ChildFooters {
+		if mref := childFooter.anyMmapRef(); mref != nil {
+			return mref
+		}
+	}
+	return nil
+}
+
 // segmentLocs returns the current SegmentLocs and segmentStack for
 // a footer, while also incrementing the ref-count on the footer.  The
 // caller must DecRef() the footer when done.
